@@ -239,6 +239,9 @@ type sessOpts struct {
 	purge   time.Duration
 	probe   time.Duration
 	poison  int // 0 = private immutable buffers; 1 = shared buffer scribbled with 0x00; 2 = with 0xa5
+	// fullChan: the application never reads the notification channel (it is full from the start); only the tracking
+	// rules (class "model") are judged - notifications cannot be
+	fullChan bool
 }
 
 type sessStep struct {
@@ -449,6 +452,11 @@ func runSession(alpha []sEvent, hist []int, o sessOpts) *sessResult {
 		var s *packet.Session
 		s, conn = env.NewSession(sessNIC(), packet.Config{ProbeDeadline: o.probe, OfflineDeadline: o.offline, PurgeDeadline: o.purge})
 		vsched.WaitIdle()
+		if o.fullChan {
+			for len(s.C) < cap(s.C) {
+				s.C <- packet.Notification{}
+			}
+		}
 		model := newSessModel(vsched.NowNanos(), o.offline, o.purge)
 		lastNote := map[netip.Addr]string{} // content of the last notification per address (prefixed by the MAC)
 		lastOwn := map[netip.Addr]string{}  // the address' own learned names when it was last notified
@@ -476,6 +484,9 @@ func runSession(alpha []sEvent, hist []int, o sessOpts) *sessResult {
 			predicted := false
 			probeOK := map[netip.Addr]bool{} // addresses purge may probe during this step
 			fail := func(class, sig, what string) {
+				if o.fullChan && class != "model" && class != "panic" {
+					return
+				}
 				failed = true
 				viol(class, sig, fmt.Sprintf("step %d %s: %s", si+1, ev, what))
 			}
@@ -620,7 +631,7 @@ func runSession(alpha []sEvent, hist []int, o sessOpts) *sessResult {
 			}
 			// drain notifications
 			var received []packet.Notification
-			for len(s.C) > 0 {
+			for len(s.C) > 0 && !o.fullChan {
 				received = append(received, <-s.C)
 			}
 			for _, f := range conn.Take() {
@@ -886,6 +897,17 @@ func sessExplore(c *core.Ctx, class string) {
 				}
 			}
 		}
+		if class == "model" && len(sr.Violations) == 0 && len(hist) <= 2 {
+			// the same (short) history for an application that never reads the notification channel: tracking, ageing and
+			// removal must not depend on the channel having room
+			o2 := o
+			o2.fullChan = true
+			for _, v := range runSession(alpha, hist, o2).violations {
+				if strings.HasPrefix(v, "model|") {
+					sr.Violations = append(sr.Violations, v+" (notification channel full: the application does not read it)")
+				}
+			}
+		}
 		if class == "invariant" && len(sr.Violations) == 0 {
 			// the same history as a zero-copy packet loop delivers it: one receive buffer, overwritten after every call
 			o2 := o
@@ -1004,6 +1026,15 @@ func sessReplayer(data []byte) string {
 	if r.Class == "model" {
 		o2 := o
 		o2.poison = 2
+		for _, v := range runSession(alpha, r.Hist, o2).violations {
+			if strings.HasPrefix(v, "model|") {
+				return v
+			}
+		}
+	}
+	if r.Class == "model" && len(r.Hist) <= 2 {
+		o2 := o
+		o2.fullChan = true
 		for _, v := range runSession(alpha, r.Hist, o2).violations {
 			if strings.HasPrefix(v, "model|") {
 				return v
